@@ -329,8 +329,10 @@ def replay(spec):
             if not (a == b or (a != a and b != b)):
                 return {"reproduced": True, "key": "statistic-differs", "detail": f"{nm}: {a} vs {b}"}
     else:
-        if not (np.array_equal(h.amplitude, g.amplitude) and (h.peak_frequency == g.peak_frequency or (h.peak_frequency != h.peak_frequency and g.peak_frequency != g.peak_frequency))):
-            return {"reproduced": True, "key": "state-differs", "detail": "diffuse field differs"}
+        sr_h = tuple(h._search_range_in_hz) if h._search_range_in_hz is not None else None
+        sr_g = tuple(g._search_range_in_hz) if g._search_range_in_hz is not None else None
+        if not (np.array_equal(h.amplitude, g.amplitude) and sr_h == sr_g and (h.peak_frequency == g.peak_frequency or (h.peak_frequency != h.peak_frequency and g.peak_frequency != g.peak_frequency))):
+            return {"reproduced": True, "key": "state-differs", "detail": f"diffuse field after {spec['history']}: search range written {sr_h}, read back {sr_g}; peak {h.peak_frequency} vs {g.peak_frequency}"}
     return {"reproduced": False, "detail": "round trip exact on the real library"}
 
 
